@@ -63,7 +63,7 @@ func c17Build(o c17Opts) *c17World {
 	w := &c17World{f: flamego.NewWithLogger(io.Discard)}
 	w.f.Use(flamego.Renderer(flamego.RenderOptions{Charset: o.Charset, JSONIndent: o.JSONIndent, XMLIndent: o.XMLIndent}))
 	w.f.Use(func() {}) // some handler in between
-	w.f.Get("/", func(c flamego.Context) {}, func(r flamego.Render) {
+	w.f.Routes("/", "GET,HEAD,POST", func(c flamego.Context) {}, func(r flamego.Render) {
 		switch w.op.Kind {
 		case "JSON":
 			r.JSON(w.op.Status, w.op.Val)
@@ -79,12 +79,16 @@ func c17Build(o c17Opts) *c17World {
 }
 
 func c17Judge(w *c17World, o c17Opts, op c17Op) (bad, kind string) {
+	return c17JudgeM(w, o, op, "GET")
+}
+
+func c17JudgeM(w *c17World, o c17Opts, op c17Op, method string) (bad, kind string) {
 	w.op = op
 	spy := &c01Spy{hdr: http.Header{}}
 	var pan interface{}
 	func() {
 		defer func() { pan = recover() }()
-		w.f.ServeHTTP(spy, newReq("GET", "/"))
+		w.f.ServeHTTP(spy, newReq(method, "/"))
 	}()
 	if pan != nil {
 		return fmt.Sprintf("panicked: %v", pan), "panic"
@@ -101,6 +105,12 @@ func c17Judge(w *c17World, o c17Opts, op c17Op) (bad, kind string) {
 		return fmt.Sprintf("Content-Type %q, expected %q", got, wantCT), "content-type"
 	}
 	body := spy.body.String()
+	if method == "HEAD" {
+		if body != "" {
+			return fmt.Sprintf("HEAD request received a body: %q", trunc(body)), "head-body"
+		}
+		return "", ""
+	}
 	switch op.Kind {
 	case "Binary":
 		if body != string(op.Val.([]byte)) {
@@ -210,6 +220,7 @@ type c17Case struct {
 	Status int     `json:"status"`
 	Val    string  `json:"value_go_syntax"`
 	Index  int     `json:"value_index"`
+	Seq    bool    `json:"after_HEAD_GET_POST_sequence,omitempty"`
 }
 
 func c17Ops(thorough bool) []c17Op {
@@ -286,14 +297,30 @@ func c17Run(r *core.Run) {
 					l.NonTrivial++
 				}
 				bad, kind := c17Judge(worlds[si], o, op)
+				seq := false
+				if bad == "" && (oi+si)%3 == 0 {
+					seq = true
+					// the same render for a HEAD and a POST request, then again for GET: requests must not
+					// leave anything behind that a later response picks up
+					for _, m := range []string{"HEAD", "GET", "POST"} {
+						l.Evals++
+						l.Transitions++
+						l.Traces++
+						if bad, kind = c17JudgeM(worlds[si], o, op, m); bad != "" {
+							bad = "in the request sequence HEAD, GET, POST with the same render, at " + m + ": " + bad
+							kind += "/" + m
+							break
+						}
+					}
+				}
 				if bad != "" {
 					l.Class("mismatch")
-					l.Violate(kind+"/"+op.Kind, bad+fmt.Sprintf(" [options %+v, %s(%d, %s)]", o, op.Kind, op.Status, trunc(fmt.Sprintf("%#v", op.Val))), c17Case{o, op.Kind, op.Status, trunc(fmt.Sprintf("%#v", op.Val)), oi})
+					l.Violate(kind+"/"+op.Kind, bad+fmt.Sprintf(" [options %+v, %s(%d, %s)]", o, op.Kind, op.Status, trunc(fmt.Sprintf("%#v", op.Val))), c17Case{o, op.Kind, op.Status, trunc(fmt.Sprintf("%#v", op.Val)), oi, seq && bad != "" && strings.HasPrefix(bad, "in the request sequence")})
 					continue
 				}
 				l.Class(fmt.Sprintf("%s:%dxx", op.Kind, op.Status/100))
 				if (oi+si)%3001 == 0 {
-					l.Sample(c17Case{o, op.Kind, op.Status, trunc(fmt.Sprintf("%#v", op.Val)), oi})
+					l.Sample(c17Case{o, op.Kind, op.Status, trunc(fmt.Sprintf("%#v", op.Val)), oi, false})
 				}
 			}
 		}
@@ -342,7 +369,15 @@ func c17Replay(raw json.RawMessage) (bool, string) {
 	for _, th := range []bool{false, true} {
 		ops := c17Ops(th)
 		if c.Index < len(ops) && ops[c.Index].Kind == c.Kind && ops[c.Index].Status == c.Status && trunc(fmt.Sprintf("%#v", ops[c.Index].Val)) == c.Val {
-			bad, _ := c17Judge(c17Build(c.Opts), c.Opts, ops[c.Index])
+			w := c17Build(c.Opts)
+			bad, _ := c17Judge(w, c.Opts, ops[c.Index])
+			if bad == "" && c.Seq {
+				for _, m := range []string{"HEAD", "GET", "POST"} {
+					if bad, _ = c17JudgeM(w, c.Opts, ops[c.Index], m); bad != "" {
+						break
+					}
+				}
+			}
 			return bad != "", bad
 		}
 	}
